@@ -66,12 +66,12 @@ func init() {
 		ID: "C01", Title: "No input crashes, hangs or over-reads any lexer, parser or AST method",
 		Sel: append(append([]Sel{}, lexers...), Sel{Pattern: "js.Parser.*", Levels: "F", OnlyTags: []string{"depth"}},
 			Sel{Pattern: "css.Parser.*", Levels: "T", OnlyTags: []string{"C01"}},
-			// zero-annotation sweep over every function of the repository: a pointer obtained from a comma-ok type assertion is
-			// dereferenced only where ok holds
-			Sel{Pattern: "*", Levels: "S", Kinds: []string{"commaok"}, Except: []string{"*.init"}},
 			// nil-dereference obligations of the JSON conversion of object properties and array elements (their "is this JSON at
 			// all" guards are what keeps a method definition or an elision from being dereferenced)
-			Sel{Pattern: "js.Property.JSON", Levels: "S", Kinds: []string{"nil", "pre", "cover"}}, Sel{Pattern: "js.ArrayExpr.JSON", Levels: "S", Kinds: []string{"nil", "pre", "cover"}}),
+			Sel{Pattern: "js.Property.JSON", Levels: "S", Kinds: []string{"nil", "pre", "cover", "commaok"}}, Sel{Pattern: "js.ArrayExpr.JSON", Levels: "S", Kinds: []string{"nil", "pre", "cover", "commaok"}},
+			// zero-annotation sweep over every function of the repository: a pointer obtained from a comma-ok type assertion is
+			// dereferenced only where ok holds
+			Sel{Pattern: "*", Levels: "S", Kinds: []string{"commaok"}, Except: []string{"*.init"}}),
 		Analyses: []string{"depth"},
 		NotDecided: []string{
 			"memory safety (nil, bounds) and termination of the js.Parser functions and of the AST printing methods (JS/String/JSON): decided for all of them is only the annotation-free obligation that the result of a comma-ok type assertion is not dereferenced where ok is false; for the JS parser additionally the recursion-depth argument (every call-graph cycle passes through a depth guard; guards recurse only under their increment and limit; no parser function lowers a nesting counter)",
@@ -95,7 +95,7 @@ func init() {
 		Sel: []Sel{
 			{Pattern: "parse.Number", Levels: "SF"}, {Pattern: "parse.Dimension", Levels: "SF"},
 			{Pattern: "parse.Mediatype", Levels: "S"}, {Pattern: "parse.DataURI", Levels: "SF"}, {Pattern: "parse.QuoteEntity", Levels: "S"},
-			{Pattern: "parse.EncodeURL", Levels: "S"}, {Pattern: "parse.DecodeURL", Levels: "S"}, {Pattern: "parse.AppendEscape", Levels: "S"},
+			{Pattern: "parse.EncodeURL", Levels: "SF"}, {Pattern: "parse.DecodeURL", Levels: "S"}, {Pattern: "parse.AppendEscape", Levels: "S"},
 			{Pattern: "parse.EqualFold", Levels: "SF"}, {Pattern: "parse.ToLower", Levels: "SF"}, {Pattern: "parse.Copy", Levels: "SF"},
 			{Pattern: "parse.TrimWhitespace", Levels: "SF"}, {Pattern: "parse.IsAllWhitespace", Levels: "SF"},
 			{Pattern: "parse.IsWhitespace", Levels: "SF"}, {Pattern: "parse.IsNewline", Levels: "SF"},
